@@ -18,8 +18,9 @@ RULE = ('random histories of __setitem__ with plain and composite keys of '
         'record its container and name, no name may be stored as handle and '
         'map at once (any ChainMap layer), no unknown name may be visible, '
         'and for sampled absent / too-long paths get returns its default '
-        'exactly when [] raises KeyError; after clear() former visible '
-        'children are detached. Non-trivial = a composite key of depth>=3 '
+        'exactly when [] raises KeyError; after clear() former '
+        'children - visible ones and handles kept beneath newer ones in '
+        'deeper layers - are detached. Non-trivial = a composite key of depth>=3 '
         'creating an implicit map, an overwrite across kinds, or a clear of a '
         'layered map.')
 ANCHORS = [
@@ -31,9 +32,8 @@ ANCHORS = [
 MIN_NONTRIVIAL = {'quick': 400, 'thorough': 8000}
 MIN_STATS = {'tree_comparisons': 200000}
 ASSUMPTIONS = [
-    "don't-care: parent/key of displaced (no longer reachable) nodes; whether "
-    'clear() also unlinks shadowed handles; identity of implicitly created '
-    'maps across overwrites',
+    "don't-care: parent/key of displaced (no longer reachable) nodes; "
+    'identity of implicitly created maps across overwrites',
     'each value object is inserted at most once',
 ]
 
@@ -76,7 +76,11 @@ def gen_one(rng, tier, scale=False):
                                for _ in range(rng.randint(8, 14)))
             ops.append(['set', key, gen_value(rng, alphabet)])
         elif k < 0.84:
-            ops.append(['layer_set', gen_key(rng, alphabet, 3)])
+            key = gen_key(rng, alphabet, 3)
+            ops.append(['layer_set', key])
+            if rng.random() < 0.3:
+                # ... and the map holding the shadowed handle is cleared
+                ops.append(['clear', key.rpartition('/')[0] or None])
         elif k < 0.88:
             ops.append(['reassign', gen_key(rng, alphabet, 3)])
         elif k < 0.93:
